@@ -54,20 +54,21 @@ int vnacal_new_set_m_error(vnacal_new_t *vnp,
     }
     vcp = vnp->vn_vcp;
     vlp = &vnp->vn_layout;
-    if (frequencies < 1) {
-	_vnacal_error(vcp, VNAERR_USAGE, "vnacal_new_set_m_error: "
-		"frequencies must be at least 1");
-	return -1;
-    }
 
     /*
      * If both vectors are NULL, clear any previous measurement
-     * error setting and return.
+     * error setting and return.  With no vectors, there's nothing
+     * for frequencies to count: zero is as good as any other value.
      */
     if (sigma_nf_vector == NULL && sigma_tr_vector == NULL) {
 	free((void *)vnp->vn_m_error_vector);
 	vnp->vn_m_error_vector = NULL;
 	return 0;
+    }
+    if (frequencies < 1) {
+	_vnacal_error(vcp, VNAERR_USAGE, "vnacal_new_set_m_error: "
+		"frequencies must be at least 1");
+	return -1;
     }
 
     /*
